@@ -29,6 +29,7 @@ var c12Keys = []string{"a", "b", "c", "d", "k/1", "k/2", "k/3", "k/1/x", "k/1/y"
 
 // w2Workload drives a single-shard node and checks every response against the model.
 type w2Workload struct {
+	burstInReq map[string]int // shared sequence-delta floors while generating concurrent requests
 	notifRetention time.Duration // 0 = nothing is ever trimmed within a run
 	seqPrefixes []string // sequence prefixes used by genSeqPut (default: seq, seq/a, q)
 	r    *Run
@@ -114,6 +115,13 @@ func (wl *w2Workload) genSeqPut(g *Rng, inReq map[string]int) *proto.PutRequest 
 	if nd < maxParts {
 		nd = maxParts
 	}
+	if wl.burstInReq != nil {
+		// concurrent requests are logged in an order the generator does not know: one
+		// suffix count per prefix for the whole burst
+		if v, ok := wl.burstInReq[p.Key]; ok {
+			nd = v
+		}
+	}
 	for i := 0; i < nd; i++ {
 		d := uint64(g.Range(0, 5))
 		if i == 0 {
@@ -129,6 +137,9 @@ func (wl *w2Workload) genRequest(g *Rng) *proto.WriteRequest {
 	req := &proto.WriteRequest{}
 	np := g.Range(0, 4)
 	inReq := map[string]int{}
+	if wl.burstInReq != nil {
+		inReq = wl.burstInReq
+	}
 	for i := 0; i < np; i++ {
 		if wl.opts.sequences && g.Chance(20) {
 			req.Puts = append(req.Puts, wl.genSeqPut(g, inReq))
